@@ -1397,6 +1397,9 @@ impl Sup {
             m.insert("site".into(), json!(s));
         }
         for (k, v) in &ci.fields {
+            if !ci.sb && k == "len" {
+                continue; // e.g. length of a log line naming an absolute path: environment data
+            }
             m.insert(k.clone(), v.clone());
         }
         m.insert("r".into(), ret.clone());
@@ -1493,7 +1496,7 @@ impl Sup {
                 if fl.site == s {
                     if let Some(e) = fl.errno {
                         fail = Some(e);
-                        fl.fired = Some(ci.name.to_string());
+                        fl.fired = Some(if ci.fd.is_some() && ci.name.contains("stat") { format!("{}-fd", ci.name) } else { ci.name.to_string() });
                     } else if let Some(k) = fl.clamp {
                         if ci.io_len_arg.is_some() {
                             clamp = Some(k);
